@@ -25,11 +25,41 @@ static int cmpu64(const void* x, const void* y) { U64 a = *(const U64*) x, b = *
 
 @@WORKERS@@
 
+/* ---- store-buffering litmus (sequential consistency of atomic store + atomic load across TWO cells):
+        T0: X = k; r0 = Y        T1: Y = k; r1 = X        forbidden in every total order: r0 < k and r1 < k */
+static volatile int sbGo[2], sbDone[2];
+static long sbRounds;
+#define SB(NAME, STORE, LOAD, CT) \
+static CT sbR_##NAME[2]; \
+static void* sb_##NAME(void* p) { int me = (int) (long) p; long k; \
+  for (k = 1; k <= sbRounds; k++) { \
+    while (__atomic_load_n(&sbGo[me], __ATOMIC_ACQUIRE) != (int) k) {} \
+    STORE(&mem, me ? 192 : 128, (CT) k); \
+    sbR_##NAME[me] = LOAD(&mem, me ? 128 : 192); \
+    __atomic_store_n(&sbDone[me], (int) k, __ATOMIC_RELEASE); } \
+  return NULL; } \
+static void run_sb_##NAME(CT mask) { pthread_t th[2]; long k, bad = 0; int i; \
+  memset(mem.data + 128, 0, 8); memset(mem.data + 192, 0, 8); sbGo[0] = sbGo[1] = sbDone[0] = sbDone[1] = 0; \
+  for (i = 0; i < 2; i++) pthread_create(&th[i], NULL, sb_##NAME, (void*) (long) i); \
+  for (k = 1; k <= sbRounds; k++) { \
+    __atomic_store_n(&sbGo[0], (int) k, __ATOMIC_RELEASE); __atomic_store_n(&sbGo[1], (int) k, __ATOMIC_RELEASE); \
+    while (__atomic_load_n(&sbDone[0], __ATOMIC_ACQUIRE) != (int) k || __atomic_load_n(&sbDone[1], __ATOMIC_ACQUIRE) != (int) k) {} \
+    if (sbR_##NAME[0] != ((CT) k & mask) && sbR_##NAME[1] != ((CT) k & mask)) bad++; } \
+  for (i = 0; i < 2; i++) pthread_join(th[i], NULL); \
+  if (bad == 0) printf("sb_" #NAME " ok\n"); \
+  else printf("sb_" #NAME " FAIL %ld of %ld rounds of the store-buffering litmus (T0: store X; load Y  ||  T1: store Y; load X) ended with BOTH loads returning the old value: no total order of the four accesses explains that\n", bad, sbRounds); }
+SB(i32, i32_atomic_store, i32_atomic_load, U32)
+SB(i64, i64_atomic_store, i64_atomic_load, U64)
+SB(i32_16, i32_atomic_store16, i32_atomic_load16_u, U32)
+SB(i64_8, i64_atomic_store8, i64_atomic_load8_u, U64)
+
 int main(int argc, char** argv) {
   T = atoi(argv[1]); K = atoi(argv[2]);
   mem.data = calloc(1, 65536); mem.size = 65536; mem.pages = 1; mem.maxPages = 1; mem.shared = true;
   pthread_barrier_init(&bar, NULL, T);
 @@RUNS@@
+  sbRounds = argc > 3 ? atol(argv[3]) : 200000;
+  run_sb_i32(0xffffffffu); run_sb_i64(~(U64) 0); run_sb_i32_16(0xffffu); run_sb_i64_8(0xffu);
   return 0;
 }
 '''
@@ -105,8 +135,8 @@ def build(repo_copy, workdir, cc="gcc", copts=("-O2",)):
     return exe
 
 
-def run(exe, threads, iters, timeout=600):
-    p = subprocess.run([exe, str(threads), str(iters)], stdout=subprocess.PIPE, stderr=subprocess.PIPE, text=True, timeout=timeout)
+def run(exe, threads, iters, timeout=600, sb_rounds=200000):
+    p = subprocess.run([exe, str(threads), str(iters), str(sb_rounds)], stdout=subprocess.PIPE, stderr=subprocess.PIPE, text=True, timeout=timeout)
     if p.returncode != 0:
         raise RuntimeError("atomic-stress died rc=%r: %s" % (p.returncode, p.stderr[-500:]))
     return [l.split(" ", 2) for l in p.stdout.splitlines()]
